@@ -27,8 +27,8 @@ import (
 
 type vector struct {
 	Kind, App, Pod, Ns, Pool, Key string
-	Dec                            struct{ Pool, Prefix, Ns, App, Pod string }
-	Entry                          struct{ Namespace, AppName, PodName, PoolName, AppType string }
+	Dec                           struct{ Pool, Prefix, Ns, App, Pod string }
+	Entry                         struct{ Namespace, AppName, PodName, PoolName, AppType string }
 }
 
 type finding struct {
